@@ -41,19 +41,27 @@ def capture(lang):
     from vf.props.c14 import make_tokens
 
     seen = []
-    o_find, o_starts = scope_utils.find_all, scope_utils.starts_with
-    real_find = o_find
+    # the header expression reaches the matcher through find_all or (with a follow-up pattern) find_candidates
+    finders = [n for n in ("find_all", "find_candidates") if hasattr(scope_utils, n)]
+    o_finders = {n: getattr(scope_utils, n) for n in finders}
+    o_starts = scope_utils.starts_with
 
-    def rec_find(expression, tokens):
-        seen.append(("header", expression))
-        return real_find(expression, tokens)
+    def make_rec(real):
+        def rec_find(expression, tokens):
+            if not any(e is expression for _, e in seen):
+                seen.append(("header", expression))
+            return real(expression, tokens)
+
+        return rec_find
 
     def rec_starts(expression, tokens):
         if not any(e is expression for _, e in seen):
             seen.append(("followup", expression))
         return o_starts(expression, tokens)
 
-    scope_utils.find_all, scope_utils.starts_with = rec_find, rec_starts
+    for n in finders:
+        setattr(scope_utils, n, make_rec(o_finders[n]))
+    scope_utils.starts_with = rec_starts
     try:
         # probes that make every header expression produce at least one match, so the follow-up is consulted
         for probe in (["id", "(", ")", "{"], ["def", "id", "(", ")", "{"], ["function", "id", "(", ")", "{"],
@@ -63,7 +71,9 @@ def capture(lang):
             except Exception:
                 pass
     finally:
-        scope_utils.find_all, scope_utils.starts_with = o_find, o_starts
+        for n in finders:
+            setattr(scope_utils, n, o_finders[n])
+        scope_utils.starts_with = o_starts
     out, ids = [], set()
     for role, e in seen:
         key = (role, _expr_key(e))
